@@ -693,7 +693,9 @@ fn mixed_group_sweep(k: usize, max_mentions: usize) -> Sweep {
     let f2 = fam.clone();
     // divergent members (a function that calls itself twice) grow fast: a short horizon is enough to
     // tell a value from a run that is still going
-    let horizon = 300;
+    // (150 steps; a case gets 120 s of CPU time: at 300 steps and 20 s two divergent members were seen to
+    // run into the watchdog on a loaded machine — an alarm about the machine, not about gram)
+    let horizon = 150;
     Sweep::new(
         &format!("rewrite graph to depth 1 from the mixed-group family (functions and computed definitions in one group), k = {k}, at most {max_mentions} mention(s)"),
         fam.count(),
@@ -704,6 +706,7 @@ fn mixed_group_sweep(k: usize, max_mentions: usize) -> Sweep {
         },
         move |idx| surface::print(&f2.program(idx)),
     )
+    .with_timeout(120)
     .with_post_abort(|_, kind| AbortVerdict::Violation {
         sub: "abnormal-ending".to_owned(),
         input: String::new(),
